@@ -227,8 +227,8 @@ func c19RandAddr(rng *rand.Rand) net.IP {
 
 func init() {
 	mon.Register(&mon.Check{
-		ID:   "C19",
-		Rule: "(a) every reference block of the property text: first, last and seeded interior addresses must be reserved, public addresses must not, 4-byte and IPv4-mapped forms must agree; (b) relations on the implementation for every prefix length of every super-/sub-net of every block and table entry (exhaustive sweep) and for seeded random networks: contains-a-reserved-address => intersects; intersects => every super-net intersects; /32 and /128 networks == address test; 4-byte vs 16-byte network forms agree; (c) generated certificates with chosen iPAddress SANs, IP common names, reverse-DNS names and permitted name-constraint subtrees: the four lints must report exactly what the address / network tests say. evaluations = address, relation and lint judgements; distinct_nontrivial = distinct networks + addresses judged.",
+		ID:          "C19",
+		Rule:        "(a) every reference block of the property text: first, last and seeded interior addresses must be reserved, public addresses must not, 4-byte and IPv4-mapped forms must agree; (b) relations on the implementation for every prefix length of every super-/sub-net of every block and table entry (exhaustive sweep) and for seeded random networks: contains-a-reserved-address => intersects; intersects => every super-net intersects; /32 and /128 networks == address test; 4-byte vs 16-byte network forms agree; (c) generated certificates with chosen iPAddress SANs, IP common names, reverse-DNS names and permitted name-constraint subtrees: the four lints must report exactly what the address / network tests say. evaluations = address, relation and lint judgements; distinct_nontrivial = distinct networks + addresses judged.",
 		Assumptions: []string{"the reference block list is the one spelled out in the property; other table entries (IANA special registries) are exercised through the relations only"},
 		Setup:       setupCommon,
 		Once:        c19Once,
